@@ -28,3 +28,46 @@ func validateMaps(env *Environment, errorSink *validation.ErrorSink) *Environmen
 
 	return env
 }
+
+// validateResolvedMapKeys repeats the map key check once types are resolved, so that a key
+// given through a named type (an alias of a non-primitive type, a record, an enum) or through a
+// generic type argument is rejected as well. Errors found inside an instantiated generic
+// type are reported at the reference that supplied the type arguments.
+func validateResolvedMapKeys(env *Environment, errorSink *validation.ErrorSink) *Environment {
+	if len(errorSink.Errors) > 0 {
+		// Only perform this if all types are resolved
+		return env
+	}
+
+	VisitWithContext(env, nil, func(self VisitorWithContext[Node], node Node, reference Node) {
+		switch t := node.(type) {
+		case *Map:
+			if st, ok := GetUnderlyingType(t.KeyType).(*SimpleType); ok {
+				switch st.ResolvedDefinition.(type) {
+				case PrimitiveDefinition, *GenericTypeParameter:
+					self.VisitChildren(node, reference)
+					return
+				}
+			}
+
+			errorNode := Node(t)
+			if reference != nil {
+				errorNode = reference
+			}
+			errorSink.Add(validationError(errorNode, "map key type must be a primitive scalar type"))
+		case *SimpleType:
+			self.VisitChildren(node, reference)
+			if t.ResolvedDefinition != nil && len(t.ResolvedDefinition.GetDefinitionMeta().TypeArguments) > 0 {
+				// Check the referenced type with the type arguments provided
+				if reference == nil {
+					reference = t
+				}
+				self.Visit(t.ResolvedDefinition, reference)
+			}
+		default:
+			self.VisitChildren(node, reference)
+		}
+	})
+
+	return env
+}
